@@ -69,6 +69,23 @@ theorem select_precedence (ps : List Ctx) (sni : Name) (protos : List Name) :
   rw [walk_eq, pick_eq_ofOpt]
   simp [orElse']
 
+/-- `select_precedence` spelled out over the regenerated functions only: the regenerated `GetConfigForClient` returns the
+first ready context whose regenerated key set (regenerated `buildMatch` over the regenerated ALPN filter) the regenerated
+`MatchedServerName` accepts for the SNI, else the first ready one the regenerated `MatchedALPN` accepts, else the first
+ready context, else the error. -/
+theorem gen_select_precedence (ps : List Ctx) (sni : Name) (protos : List Name) (fuel : Nat) :
+    Gen.TlsMatch.getConfigForClient (provs ps 0) sni protos fuel =
+      ofOpt (orElse'
+        (ps.findIdx? (fun c => c.ready && Gen.TlsMatch.matchedServerName
+          (Gen.TlsMatch.buildMatch [some ⟨c.cn, c.sans⟩] (Gen.TlsMatch.alpnFilter c.alpnCfg) c.serverName) sni fuel))
+        (orElse'
+          (ps.findIdx? (fun c => c.ready && Gen.TlsMatch.matchedALPN
+            (Gen.TlsMatch.buildMatch [some ⟨c.cn, c.sans⟩] (Gen.TlsMatch.alpnFilter c.alpnCfg) c.serverName) protos))
+          (ps.findIdx? (fun c => c.ready)))) := by
+  simp only [gen_select_eq_model, select_precedence, gen_buildMatch_eq_model, gen_matchedServerName_eq_model,
+    gen_matchedALPN_eq_model]
+  rfl
+
 /-- `findIdx?` is "the first": index `i` is returned iff the predicate holds at `i` and at no smaller index (core lemma,
 restated so that `select_precedence` can be read without the library). -/
 theorem first_means_first (ps : List Ctx) (p : Ctx → Bool) (i : Nat) :
